@@ -10,8 +10,8 @@ import (
 	"strings"
 	"time"
 
-	simcommon "github.com/tsenart/vegeta/v12/internal/zzsim/common"
 	"github.com/tsenart/vegeta/v12/internal/simrt"
+	simcommon "github.com/tsenart/vegeta/v12/internal/zzsim/common"
 	vegeta "github.com/tsenart/vegeta/v12/lib"
 )
 
@@ -26,16 +26,16 @@ func init() {
 
 // refMetrics is the direct computation from the documented definitions.
 type refMetrics struct {
-	n                  uint64
-	codes              map[string]int
-	bytesIn, bytesOut  uint64
-	latTotal           int64
-	latMin, latMax     int64
-	earliest, latest   time.Time
-	end                time.Time
-	success            uint64
-	errors             map[string]bool
-	sorted             []int64
+	n                 uint64
+	codes             map[string]int
+	bytesIn, bytesOut uint64
+	latTotal          int64
+	latMin, latMax    int64
+	earliest, latest  time.Time
+	end               time.Time
+	success           uint64
+	errors            map[string]bool
+	sorted            []int64
 }
 
 func reference(rs []vegeta.Result) *refMetrics {
